@@ -263,6 +263,10 @@ def make_pool(rng):
         if integer:
             item["int"] = arr.astype(np.int64)
             item["list"] = arr.astype(int).tolist()
+            item["float32"] = arr.astype(np.float32)         # exact for integer values: the same diagram as ripser emits it
+        elif rng.random() < 0.35:
+            item["float"] = arr.astype(np.float32)           # natively single precision
+            arr = item["float"]
         if has_inf:
             item["float_inf"] = np.vstack([arr, [[float(arr[0, 0]), np.inf]]])
         pool["dgm"].append(item)
@@ -289,11 +293,13 @@ def pick(rng, pool, kind):
         it = pool["dgm"][i]
         forms = ["float"]
         if it["integer"]:
-            forms += ["int", "list"]
+            forms += ["int", "list", "float32"]
         form = str(rng.choice(forms))
         if kind == "dgm" and it["inf"] and rng.random() < 0.5:
             return it["float_inf"], ("dgm", i, "inf"), ("dgm", i, "float_inf"), "float"
-        return it[form], ("dgm", i), ("dgm", i, form), form
+        # single precision is a different computation (results agree only to ~1e-7), so it is its own value key: purity and
+        # repeatability are judged for it, equality with the double-precision forms is not demanded
+        return it[form], (("dgm", i, "f32") if form == "float32" else ("dgm", i)), ("dgm", i, form), form
     i = int(rng.integers(0, len(pool[kind])))
     return pool[kind][i], (kind, i), (kind, i), "-"
 
@@ -326,6 +332,10 @@ def run_case(ctx, k, rng):
             args = [_copy.deepcopy(a) if isinstance(a, (np.ndarray, list)) else a for a in args]
             ctx.note("calls with short-lived copies")
         vkey = (name, tuple(p[1] for p in picks))
+        if any(isinstance(a, np.ndarray) and a.dtype == np.float32 for a in args):
+            # mixed single/double arithmetic promotes differently for int arrays and python ints (1e-7 effects): calls that
+            # involve a single-precision array are compared only with calls using exactly the same forms
+            vkey = (name, tuple(p[2] for p in picks))
         forms = tuple(p[3] for p in picks)
         before = [arr_snapshot(a) for a in args]
         ctx.ran()
@@ -335,7 +345,7 @@ def run_case(ctx, k, rng):
                 warnings.simplefilter("ignore")
                 res = f(*args)
         except (TypeError, AttributeError, ValueError, IndexError, KeyError) as e:
-            if any(fm in ("list", "int") for fm in forms):
+            if any(fm in ("list", "int", "float32") for fm in forms):
                 ctx.note("form not accepted:" + name)
                 program.append((name, picks))
                 # purity still applies to a rejected call
@@ -397,9 +407,12 @@ def run_case(ctx, k, rng):
 
 def pick_same(rng, pool, p):
     pid = p[2]
-    if pid[0] == "dgm" and len(pid) == 3 and pid[2] in ("float", "int", "list"):
+    if pid[0] == "dgm" and len(pid) == 3 and pid[2] in ("float", "int", "list", "float32"):
         it = pool["dgm"][pid[1]]
-        forms = ["float"] + (["int", "list"] if it["integer"] else [])
+        forms = ["float"] + (["int", "list", "float32"] if it["integer"] else [])
+        if pid[2] == "float32":
+            return p
+        forms.remove("float32") if "float32" in forms else None
         form = str(rng.choice(forms))
         return it[form], p[1], ("dgm", pid[1], form), form
     return p
